@@ -2,13 +2,13 @@
 import subprocess, sys, os, re, collections, json, time
 from concurrent.futures import ThreadPoolExecutor
 lo, hi, nshard = int(sys.argv[1]), int(sys.argv[2]), int(sys.argv[3])
-env = dict(os.environ, PYTHONPATH='/repo', TF_CPP_MIN_LOG_LEVEL='3')
+REPO = os.environ.get('AEQ_REPO', '/repo'); env = dict(os.environ, PYTHONPATH=REPO, TF_CPP_MIN_LOG_LEVEL='3')
 def shard(i):
     a = lo + (hi - lo) * i // nshard; b = lo + (hi - lo) * (i + 1) // nshard
     stats = collections.Counter(); ex = {}
     cur = a; skip = set()
     while cur < b:
-        p = subprocess.run(['/venv/bin/python', '/verif/design_probes/survey_child.py', str(cur), str(b), ','.join(f'{s}:{r}' for s, r in skip)], capture_output=True, text=True, env=env, cwd='/repo')
+        p = subprocess.run(['/venv/bin/python', '/verif/design_probes/survey_child.py', str(cur), str(b), ','.join(f'{s}:{r}' for s, r in skip)], capture_output=True, text=True, env=env, cwd=REPO)
         last = None
         for line in p.stdout.splitlines():
             if line.startswith('CASE '): last = line.split()[1:3]
